@@ -94,10 +94,29 @@ func extractGrpcBroker(p *pkgs, f *facts) {
 		}
 	}
 	cap := chanCap(p, p.fn("GRPCBroker", "getClientStream"), "ch")
-	f.lean = append(f.lean, fmt.Sprintf("def grpcBroker : GrpcBroker.Params := ⟨%s, %s, %d, %d, %d⟩",
-		leanBool(files), leanBool(dialsRecv), max64(cap, 0), dialWin, expiryWin))
+	// Run hands the message over with a non-blocking send
+	nonBlocking := false
+	if run := p.fn("GRPCBroker", "Run"); run != nil {
+		rs, _ := selectsOf(p, run)
+		for _, si := range rs {
+			for _, c := range si.comms {
+				if strings.HasPrefix(c, "p.ch<-") && si.hasDefault {
+					nonBlocking = true
+				}
+			}
+		}
+	}
+	// getClientStream / getServerStream: one critical section (Lock; defer Unlock; nothing else)
+	atomic := true
+	for _, name := range []string{"getClientStream", "getServerStream"} {
+		if !singleCriticalSection(p.fn("GRPCBroker", name)) {
+			atomic = false
+		}
+	}
+	f.lean = append(f.lean, fmt.Sprintf("def grpcBroker : GrpcBroker.Params := ⟨%s, %s, %s, %s, %d, %d, %d⟩",
+		leanBool(files), leanBool(dialsRecv), leanBool(nonBlocking), leanBool(atomic), max64(cap, 0), dialWin, expiryWin))
 	f.set("grpcBroker", map[string]interface{}{"filesUnderServiceId": files, "dialsReceivedAddr": dialsRecv,
-		"slotCap": cap, "dialWindowMs": dialWin, "expiryWindowMs": expiryWin})
+		"runParkNonBlocking": nonBlocking, "getStreamAtomic": atomic, "slotCap": cap, "dialWindowMs": dialWin, "expiryWindowMs": expiryWin})
 
 	// ---- mux facts
 	registerFirst := false
@@ -136,4 +155,58 @@ func nodeCalls(n ast.Node) string {
 		return true
 	})
 	return strings.Join(out, " ")
+}
+
+// singleCriticalSection: the function's body is `X.Lock(); defer X.Unlock(); …` (or Lock … single Unlock at the end)
+// with no other lock operation of any kind inside.
+func singleCriticalSection(fn *ast.FuncDecl) bool {
+	if fn == nil || len(fn.Body.List) < 2 {
+		return false
+	}
+	first, ok := fn.Body.List[0].(*ast.ExprStmt)
+	if !ok || !strings.HasSuffix(exprString(first.X), ".Lock()") {
+		return false
+	}
+	locks, unlocks, other := 0, 0, 0
+	ast.Inspect(fn.Body, func(n ast.Node) bool {
+		if ce, ok := n.(*ast.CallExpr); ok {
+			f := exprString(ce.Fun)
+			switch {
+			case strings.HasSuffix(f, ".Lock"):
+				locks++
+			case strings.HasSuffix(f, ".Unlock"):
+				unlocks++
+			case strings.HasSuffix(f, ".RLock"), strings.HasSuffix(f, ".RUnlock"), strings.HasSuffix(f, ".TryLock"):
+				other++
+			}
+		}
+		return true
+	})
+	if locks != 1 || unlocks != 1 || other != 0 {
+		return false
+	}
+	// the single Unlock is deferred right after the Lock, or is the last statement before the return(s)
+	if d, ok := fn.Body.List[1].(*ast.DeferStmt); ok && strings.HasSuffix(exprString(d.Call.Fun), ".Unlock") {
+		return true
+	}
+	// explicit unlock: it must come after every map access; accept only "… ; X.Unlock(); return v" at top level
+	n := len(fn.Body.List)
+	if n >= 2 {
+		if es, ok := fn.Body.List[n-2].(*ast.ExprStmt); ok && strings.HasSuffix(exprString(es.X), ".Unlock()") {
+			if _, ok := fn.Body.List[n-1].(*ast.ReturnStmt); ok {
+				// no return before it
+				early := false
+				for _, st := range fn.Body.List[:n-2] {
+					ast.Inspect(st, func(m ast.Node) bool {
+						if _, ok := m.(*ast.ReturnStmt); ok {
+							early = true
+						}
+						return true
+					})
+				}
+				return !early
+			}
+		}
+	}
+	return false
 }
